@@ -3,6 +3,7 @@ package props
 import (
 	"fmt"
 	"sort"
+	"strings"
 	"testing"
 
 	"pgregory.net/rapid"
@@ -22,6 +23,14 @@ type C07Case struct {
 	Mode string `json:"mode"`
 	// IgnoreVars: names listed in IgnoreModules (json mode)
 	IgnoreVars []string `json:"ignoreVars,omitempty"`
+	// FileVars: IgnoreFileVars entries (json mode): in a file whose path contains File, reads of the
+	// names in Vars are not reported
+	FileVars []C07FileVars `json:"fileVars,omitempty"`
+}
+
+type C07FileVars struct {
+	File string   `json:"File"`
+	Vars []string `json:"Vars"`
 }
 
 func init() { register("C07", checkC07) }
@@ -64,6 +73,11 @@ func genC07(t *rapid.T) C07Case {
 		if rapid.Bool().Draw(t, "ignoreUndef1") {
 			c.IgnoreVars = []string{"Undef1"}
 		}
+		// per-file ignore lists: distinct File patterns, each with its own Vars
+		pats := rapid.Permutation([]string{"main.lua", "util.lua", "sub/", "mod.lua"}).Draw(t, "fileVarPatterns")
+		for _, p := range pats[:rapid.IntRange(0, 3).Draw(t, "nFileVars")] {
+			c.FileVars = append(c.FileVars, C07FileVars{File: p, Vars: rapid.SampledFrom([][]string{{"Undef1"}, {"Undef2"}, {"Undef1", "Undef2"}, {}}).Draw(t, "fileVars")})
+		}
 	}
 	return c
 }
@@ -87,6 +101,10 @@ func checkC07(c C07Case, env *Env) *Violation {
 	if c.Mode == "json" {
 		cfg := map[string]interface{}{"BaseDir": "./", "ShowWarnFlag": 1, "IgnoreModules": c.IgnoreVars,
 			"IgnoreErrorTypes": []int{5, 6, 7, 8, 9, 10, 11, 12, 13, 14, 15, 16, 18, 19, 20, 21, 22, 23, 24, 25}}
+		if len(c.FileVars) > 0 {
+			cfg["IgnoreFileVars"] = c.FileVars
+			env.Stats.Class(fmt.Sprintf("json-file-vars-%d-entries", len(c.FileVars)))
+		}
 		req.Files = append(req.Files, proto.File{Path: "luahelper.json", Data: harness.J(cfg)})
 		req.InitOptions = harness.J(harness.AllOn())
 	} else {
@@ -131,6 +149,18 @@ func checkC07(c C07Case, env *Env) *Violation {
 			name := oc.Name.Text
 			l := spanLoc(f.Path, f.Text, oc.Name.Span)
 			if dcName(name) || ignored[name] {
+				continue
+			}
+			fileIgnored := false
+			for _, fv := range c.FileVars {
+				if strings.Contains(f.Path, fv.File) {
+					for _, vn := range fv.Vars {
+						fileIgnored = fileIgnored || vn == name
+					}
+				}
+			}
+			if c.Mode == "json" && fileIgnored {
+				env.Stats.Class("read-ignored-by-file-entry")
 				continue
 			}
 			defs := a.globalDefs[name]
